@@ -43,7 +43,8 @@ func vDerive(parent *vDerived, id string) *vDerived {
 	case 2:
 		d.log = parent.log.WithLazy(d.add("k"+id, x))
 	case 3:
-		n := []string{"", "svc" + id}[vrt.Choice(id+".name", 2)]
+		// names are arbitrary text: some begin or end with the separator itself
+		n := []string{"", "svc" + id, ".d" + id, "e" + id + "."}[vrt.Choice(id+".name", 4)]
 		if n != "" {
 			d.names = append(d.names, n)
 		}
@@ -384,7 +385,7 @@ func (s *vLineSink) Write(p []byte) (int, error) {
 }
 func (s *vLineSink) Sync() error { return nil }
 
-//verif: prop=C07 bounds="derivation programs of 2 steps (each: parent chosen among earlier loggers; op in {With 1 field, With 3 fields, WithLazy 1 field, WithLazy 2 fields, Named(empty|name), WithOptions(Fields), Sugar.With.Desugar, Sugar.WithLazy.Desugar, Namespace+field, Namespace alone, an object whose marshaler opens its own namespace, With of a marshaler over state that changes after the derivation}), symbolic int64 values, over the storing/wrapping cores (observer, tee, sampler, hooked, increase-level); every logger logs once, forwards or backwards"
+//verif: prop=C07 bounds="derivation programs of 2 steps (each: parent chosen among earlier loggers; op in {With 1 field, With 3 fields, WithLazy 1 field, WithLazy 2 fields, Named(empty | name | name beginning with a dot | name ending with a dot), WithOptions(Fields), Sugar.With.Desugar, Sugar.WithLazy.Desugar, Namespace+field, Namespace alone, an object whose marshaler opens its own namespace, With of a marshaler over state that changes after the derivation}), symbolic int64 values, over the storing/wrapping cores (observer, tee, sampler, hooked, increase-level); every logger logs once, forwards or backwards"
 func VC07Program2() { vContextProgram(2, 1, 4, 5, 6, 7) }
 
 //verif: prop=C07 bounds="derivation programs of 2 steps from the 7-operation core menu over the encoding cores (JSON, console, sampler over JSON), output decoded"
